@@ -12,8 +12,8 @@ PROPS = {}
 PROPS["C11"] = dict(
     level="proof",
     runs=[dict(bin="c11")],
-    quick=dict(n=600, shards=16),
-    thorough=dict(n=40000, shards=64, run_timeout=3000, coq_case_timeout=3000),
+    quick=dict(n=1200, shards=16),
+    thorough=dict(n=60000, shards=64, run_timeout=3000, coq_case_timeout=3000),
     trusted_base=[
         "model coq/C11/Model.v of api/src/graph/adapter.rs and api/src/dataset/adapter.rs (hand-written)",
         "the wrapped store is modelled as a duplicate-free list with set semantics (that it behaves so is property C01)",
@@ -219,14 +219,15 @@ PROPS["C12"] = dict(
     quick=dict(n=3000, shards=16),
     thorough=dict(n=100000, shards=128, run_timeout=3000, coq_case_timeout=3000),
     trusted_base=[
-        "model coq/C12/Model.v of jsonld/src/serializer/engine.rs (after the fix: commits), util_traits.rs filters and the three options (hand-written; hash maps as association lists, vector index = (graph,id) pair); fuel = number of nodes for mark/cells/convert (adequacy argued, not proved; anchoring fuel proved irrelevant)",
+        "model coq/C12/Model.v of jsonld/src/serializer/engine.rs (after the fix: commits), util_traits.rs filters and the three options (hand-written; hash maps as association lists, vector index = (graph,id) pair); fuel = number of nodes for mark/cells/convert: for cells/convert proved sufficient (cells_stable, L_le_nodes; the round-trip theorem is about the fuelled functions themselves), for mark argued (the Rust loop climbs distinct nodes), anchoring fuel proved irrelevant; coq/C12/Calls.v: the serializer object (one fresh engine per call, writer targets append, the jsonifier keeps the last document, InvalidJsonLiteral aborts the call)",
         "reference reader to_rdf (Coq) and reference_to_rdf (Rust oracle) hand-written from JSON-LD 1.1 API section 8 for expanded/flattened documents; lower-cased language in rdfDirection modes",
         "literal <-> value object conversion abstract in the structural model (value objects obtained from the implementation per literal); checked by the Rust oracle; only the i18n decision is modelled",
         "sophia's JsonLdParser (json-ld crate) exercised by the oracle, not modelled; isomorphic_datasets (C07) used as comparator",
     ],
     assumptions=[
         "identifiers 1..8 denote rdf:first/rest/nil/type/List/value/direction/language; IRIs never start with '_:'",
-        "the general round trip is checked per case (roundtrip_ok, translation validation), proved only without suppressed nodes",
+        "the general round trip (nested/shared/cyclic lists, compound literals, any number of graphs) is PROVED for the model against the model's reference reader (roundtrip_general, roundtrip_isomorphic, roundtrip_full; explicit renaming = witness); it is still evaluated per case as well (roundtrip_ok)",
+        "use_native_types=true is lossy by specification (JSON-LD 1.1 API 8.5): the oracle compares up to the value of well-formed xsd:integer/double/boolean literals; the literal <-> value object conversion stays outside the Coq model",
     ],
 )
 
